@@ -48,6 +48,7 @@ type Cfg struct {
 	CallbackPathRefs   bool // a callback's path item may be a reference to a path of the same document
 	AliasChains        bool // with NoChains: a root component may be a bare reference to an object component of another document
 	PercentSpellings   bool // local references may spell a character of their fragment percent-encoded
+	SameSpelling       bool // two files named alike in two directories, referred to by the same relative spelling
 	CallbackSelfRefs   bool // an operation's callback may be the path the operation is declared under
 	CallbackFileCycles bool // a callback kept in a file of its own may refer to that file again from inside
 	NullEntries        bool // a null entry in encoding maps, sorted before the entry with references (the only map whose null entries stay nil after parsing)
@@ -748,6 +749,20 @@ func Generate(t *rapid.T, cfg Cfg) *Layout {
 			g.feat["form:pathitem-file-chain:fragment"]++
 		}
 		paths["/a2"] = M{"$ref": g.relSpelling(root, hop)}
+	}
+	if cfg.SameSpelling && g.chance(3, "samespelling") {
+		// one spelling, two directories, two files: "pet.json" next to the root and "pet.json" next to a
+		// file of a sub-directory; the root's own whole-file component sorts after the component that
+		// reaches the other one
+		dir := path.Dir(root)
+		g.elems[path.Join(dir, "pet.json")] = M{"type": "string", "x-vid": "pet-next-to-root"}
+		g.elems[path.Join(dir, "models", "pet.json")] = M{"type": "integer", "x-vid": "pet-in-models"}
+		g.elems[path.Join(dir, "models", "owner.json")] = M{"type": "object", "x-vid": "owner", "properties": M{"pet": M{"$ref": "pet.json"}}}
+		sc := g.comps(root, "schema")
+		sc["AOwner"] = M{"$ref": "models/owner.json"}
+		sc["ZPet"] = M{"$ref": "pet.json"}
+		g.feat["form:same-spelling-two-directories"]++
+		g.feat["external"] += 2
 	}
 	// a few components of every kind in the root, some of them references
 	for _, kind := range jv.Keys(Section) {
